@@ -25,6 +25,7 @@ Accurate(e, s) ==
 DisplayOk(e) ==
   LET s == DispRun(DispInit, e.cs) IN
   /\ e.same_via_format
+  /\ e.same_nested            \* inside lists and records (any depth) the number is shown by the same numeral
   /\ DispWellFormed(s)
   /\ CASE e.kind = "nan"  -> s.q = "word" /\ s.word = NaNWord
        [] e.kind = "inf"  -> s.q = "word" /\ s.word = InfWord /\ s.neg = e.neg
